@@ -10,9 +10,18 @@ import (
 func fp(x float64) *fl { v := fl(x); return &v }
 
 // ---------------------------------------------------------------- attribute values
-// mode: 0 mixed, 1 negative only, 2 tenths (not float32 values), 3 constant, 4 with NaN / -0 (K = 2, 3 only)
+// float64 values at the edges of the float32 image: float32 denormal, below the smallest denormal (rounds to
+// +0 / -0), near the largest finite float32, 2^24+1 (ties to even), a float64 denormal, -0
+var edgeVals = []float64{1e-40, -1e-40, 1e-46, -1e-46, 3e38, -3.4e38, 16777217, -16777219, 5e-324, math.Copysign(0, -1), 0, 1.0000000596046448, 0.1}
+
+// mode: 0 mixed, 1 negative only, 2 tenths (not float32 values), 3 constant, 4 with NaN / -0 (K = 2, 3 only),
+// 5 edge values of the float32 conversion (no NaN: every K)
 func genComp(r *hx.Rng, mode int) fl {
 	switch mode {
+	case 5:
+		if r.Chance(2, 3) {
+			return fl(hx.Pick(r, edgeVals))
+		}
 	case 1:
 		return fl(-float64(r.Range(1, 4000)) / 8)
 	case 2:
@@ -44,7 +53,7 @@ func genComp(r *hx.Rng, mode int) fl {
 
 func genAttr(r *hx.Rng, name string, k, nv int, rle bool) attrDesc {
 	a := attrDesc{Name: name, K: k}
-	mode := r.Intn(5)
+	mode := r.Intn(6)
 	if k == 4 && mode == 4 {
 		mode = 0 // a NaN in a VEC4 attribute makes the writer declare NaN bounds, which encoding/json refuses
 	}
@@ -157,7 +166,7 @@ func genMesh(r *hx.Rng, big bool) meshDesc {
 }
 
 // ---------------------------------------------------------------- materials, textures
-var uris = []string{"a.png", "b.png", "c.jpg", "tex/d.png"}
+var uris = []string{"a.png", "b.png", "c.jpg", "tex/d.png", "A.png", "tex/a.png"}
 var names = []string{"", "m", "n", "steel", "m"}
 
 func genColor(r *hx.Rng) *[4]uint16 {
@@ -387,6 +396,17 @@ func genScene(r *hx.Rng, big bool) sceneDesc {
 		nmo = r.Range(1, 3)
 	}
 	vec3 := func() *[3]fl { return &[3]fl{genComp(r, 0), genComp(r, 2), genComp(r, 0)} }
+	// node transforms: now and then the identity / zero (a value a writer might be tempted to drop), -0, float64 edge values
+	trs3 := func(unit fl) *[3]fl {
+		switch r.Intn(6) {
+		case 0:
+			return &[3]fl{unit, unit, unit}
+		case 1:
+			e := []fl{fl(math.Copysign(0, -1)), 5e-324, 1e308, -1e-300, unit, 0.1}
+			return &[3]fl{hx.Pick(r, e), hx.Pick(r, e), hx.Pick(r, e)}
+		}
+		return vec3()
+	}
 	for i := 0; i < nmo; i++ {
 		mo := modelDesc{Name: hx.Pick(r, []string{"", "a", "b", "model"}), Mesh: r.Intn(len(d.Meshes)), Material: -1}
 		if i > 0 && r.Chance(1, 3) {
@@ -396,17 +416,24 @@ func genScene(r *hx.Rng, big bool) sceneDesc {
 			mo.Material = r.Intn(len(d.Materials))
 		}
 		if r.Chance(1, 3) {
-			mo.T = vec3()
+			mo.T = trs3(0)
 		}
 		if r.Chance(1, 4) {
 			mo.R = &[4]fl{genComp(r, 2), genComp(r, 2), genComp(r, 2), genComp(r, 0)}
+			if r.Chance(1, 4) {
+				mo.R = &[4]fl{0, 0, 0, 1}
+			}
 		}
 		if r.Chance(1, 4) {
-			mo.S = vec3()
+			mo.S = trs3(1)
 		}
 		if r.Chance(1, 5) {
 			for k, n := 0, r.Range(1, 3); k < n; k++ {
-				mo.Inst = append(mo.Inst, instDesc{T: *vec3(), S: *vec3(), R: [4]fl{genComp(r, 2), genComp(r, 2), genComp(r, 1), genComp(r, 0)}})
+				in := instDesc{T: *vec3(), S: *vec3(), R: [4]fl{genComp(r, 2), genComp(r, 2), genComp(r, 1), genComp(r, 0)}}
+				if r.Chance(1, 3) {
+					in = instDesc{T: [3]fl{genComp(r, 5), genComp(r, 5), genComp(r, 4)}, S: [3]fl{1, genComp(r, 5), 1}, R: [4]fl{0, genComp(r, 5), 0, 1}}
+				}
+				mo.Inst = append(mo.Inst, in)
 			}
 		}
 		d.Models = append(d.Models, mo)
@@ -415,7 +442,7 @@ func genScene(r *hx.Rng, big bool) sceneDesc {
 		alias(r, &d)
 	}
 	for i, n := 0, r.Intn(6)-3; i < n; i++ {
-		l := lightDesc{Type: hx.Pick(r, []string{"", "point", "spot", "directional"}), Color: genColor(r), Pos: *vec3()}
+		l := lightDesc{Type: hx.Pick(r, []string{"", "point", "spot", "directional"}), Color: genColor(r), Pos: *trs3(0)}
 		if r.Chance(1, 2) {
 			l.Range = genOptF(r)
 		}
@@ -423,6 +450,18 @@ func genScene(r *hx.Rng, big bool) sceneDesc {
 			l.Intensity = fp(float64(r.Range(0, 50)) / 4)
 		}
 		d.Lights = append(d.Lights, l)
+	}
+	// how the documents are produced: mostly the two package-level writers, sometimes one Writer used twice or filled
+	// by several calls (state carried between calls of the public API)
+	switch r.Intn(10) {
+	case 0:
+		d.Via = "reuse"
+	case 1:
+		d.Via, d.Split = "split", r.Intn(len(d.Models)+1)
+	case 2:
+		if len(d.Lights) > 0 {
+			d.Via = "addlight"
+		}
 	}
 	return d
 }
@@ -707,5 +746,26 @@ func fixedScenes() []sceneDesc {
 			{Attrs: []attrDesc{{Name: "Position", K: 3, Ref: &sliceRef{Pool: 0, Off: 2, Len: 4}}}, IdxRef: &sliceRef{Pool: 0, Off: 0, Len: 6}},
 			{Attrs: []attrDesc{{Name: "Position", K: 3, Ref: &sliceRef{Pool: 0, Off: 0, Len: 3}}}, IdxRef: &sliceRef{Pool: 0, Off: 3, Len: 3}}},
 		Models: []modelDesc{m(0, -1), m(1, -1), {SameAs: &zero}, m(2, -1)}})
+	// 18-23: one Writer used for several documents / filled by several calls: the scenes 5, 6, 8, 15, 8, 2 again
+	for _, v := range []struct {
+		i     int
+		via   string
+		split int
+	}{{5, "reuse", 0}, {6, "split", 2}, {8, "addlight", 0}, {15, "split", 1}, {8, "reuse", 0}, {2, "split", 1}} {
+		d := out[v.i]
+		d.Via, d.Split = v.via, v.split
+		out = append(out, d)
+	}
+	// 24: node transforms that are the identity, lights at the origin, an instance at the identity
+	ident := modelDesc{Name: "id", Mesh: 0, Material: -1, T: &[3]fl{0, 0, 0}, R: &[4]fl{0, 0, 0, 1}, S: &[3]fl{1, 1, 1},
+		Inst: []instDesc{{T: [3]fl{0, 0, 0}, R: [4]fl{0, 0, 0, 1}, S: [3]fl{1, 1, 1}}}}
+	out = append(out, sceneDesc{Meshes: []meshDesc{tri}, Models: []modelDesc{ident, m(0, -1)},
+		Lights: []lightDesc{{Type: "point", Pos: [3]fl{0, 0, 0}}, {Type: "directional", Pos: [3]fl{fl(math.Copysign(0, -1)), 0, 0}}}})
+	// 25: image URIs that differ only in case / directory; the same texture in two slots of one material
+	ua, ub := plainMat("u"), plainMat("u")
+	ua.BaseTex, ua.MRTex, ua.NormalTex, ub.BaseTex, ub.OccTex = 0, 0, 1, 2, 1
+	out = append(out, sceneDesc{Meshes: []meshDesc{quad},
+		Textures:  []texDesc{{URI: "a.png", Sampler: -1}, {URI: "A.png", Sampler: -1}, {URI: "tex/a.png", Sampler: -1}},
+		Materials: []matDesc{ua, ub}, Models: []modelDesc{m(0, 0), m(0, 1)}})
 	return out
 }
